@@ -1091,8 +1091,8 @@ func (m *MapLiteral) Type() *Type {
 
 func (m *MapLiteral) infer() {
 	m.T = m.T.infer()
-	for _, val := range m.Pairs {
-		if inf, ok := val.(inferrer); ok {
+	for _, key := range m.Order {
+		if inf, ok := m.Pairs[key].(inferrer); ok {
 			inf.infer()
 		}
 	}
@@ -1171,8 +1171,8 @@ func wrapAny(val Node, targetType *Type) Node {
 	}
 	mapLit, ok := val.(*MapLiteral)
 	if targetType.Name == MAP && ok {
-		for key, val := range mapLit.Pairs {
-			mapLit.Pairs[key] = wrapAny(val, targetType.Sub)
+		for _, key := range mapLit.Order {
+			mapLit.Pairs[key] = wrapAny(mapLit.Pairs[key], targetType.Sub)
 		}
 		mapLit.T = targetType
 		return mapLit
